@@ -139,6 +139,17 @@ def cases(tier):
             s["controls"] = [dict(c, prio=p, name="c%d" % i) for i, (c, p) in enumerate(zip(cs, pr))]
             s["id"] = {"skel": skel, "pat": pat, "hyd": H, "cv": False, "controls": s["controls"]}
             out.append(s)
+        # rule time step of one second: EVERY threshold crossing then coincides with a rule evaluation instant (the two
+        # scheduling paths of the presolve loop meet); single level controls and hysteresis pairs
+        if skel in ("twosrc", "pumpfeed"):
+            for cs in sets:
+                hyst2 = len(cs) == 2 and cs[0]["link"] == cs[1]["link"] and cs[0]["value"] != cs[1]["value"] and cs[0]["rel"] != cs[1]["rel"]
+                if all(c["kind"] == "level" for c in cs) and (len(cs) == 1 or (tier == "thorough" and hyst2)):
+                    s = skeleton(skel, pat, H)
+                    s["opts"]["rule"] = 1
+                    s["controls"] = [dict(c, prio=3, name="c%d" % i) for i, c in enumerate(cs)]
+                    s["id"] = {"skel": skel, "pat": pat, "hyd": H, "cv": False, "controls": s["controls"], "rule_step": 1}
+                    out.append(s)
         for cs in sets:
             for hyd in ((H, 900) if len(cs) == 1 else (H,)):
                 for cv in ((False, True) if skel != "valve" and len(cs) <= 2 and any(c["link"] == "p2" for c in cs) else (False,)):
